@@ -636,6 +636,11 @@ def modCands (xmin xmax ymin ymax : Int) : List Int :=
     let xs := if xmin = xmax then [xmin] else [xmin, xmax]
     xs.flatMap (fun xv => [Int.tmod xv ymin, Int.tmod xv ymax])
 
+/-- `i32::min` / `i32::max` of the two theoretical multipliers in CASE 4 of `Modulo::prune` (they are
+in reverse order for a negative divisor) -/
+def kLo (a b : Int) : Int := if a ≤ b then a else b
+def kHi (a b : Int) : Int := if a ≤ b then b else a
+
 /-- `Modulo::prune` (integer operands; `%` is Rust's truncated remainder `Int.tmod`) -/
 def pruneMod (x y : IView) (s : Nat) (ctx : Ctx) : Option Ctx :=
   let xmin := x.vmin ctx
@@ -649,8 +654,10 @@ def pruneMod (x y : IView) (s : Nat) (ctx : Ctx) : Option Ctx :=
     ctx.trySetMin s (Int.tmod xmin ymin) >>>= (·.trySetMax s (Int.tmod xmin ymin))
   else
     (if ymin = ymax then
-      let thmin := if ymin > 0 then 0 else ymin + 1
-      let thmax := if ymin > 0 then ymin - 1 else 0
+      -- the remainder of `%` takes the sign of the dividend (fix: Modulo bounds follow the dividend)
+      let m := (ymin.natAbs : Int) - 1
+      let thmin := if xmin ≥ 0 then 0 else -m
+      let thmax := if xmax ≤ 0 then 0 else m
       let nmin := if thmin > smin then thmin else smin
       let nmax := if thmax < smax then thmax else smax
       ctx.trySetMin s nmin >>>= (·.trySetMax s nmax)
@@ -662,7 +669,7 @@ def pruneMod (x y : IView) (s : Nat) (ctx : Ctx) : Option Ctx :=
       if ymin = ymax ∧ smin = smax ∧ smin ≥ 0 ∧ smin < ymin.natAbs then
         let kmin := Int.tdiv (xmin - smin) ymin
         let kmax := Int.tdiv (xmax - smin) ymin
-        let vals := ((intRange (kmin - 1) (kmax + 1)).map (fun k => k * ymin + smin)).filter
+        let vals := ((intRange (kLo kmin kmax - 1) (kHi kmin kmax + 1)).map (fun k => k * ymin + smin)).filter
           (fun v => decide (xmin ≤ v) && decide (v ≤ xmax))
         if vals.isEmpty then some c else x.trySetMin (Dom.dmin vals) c >>>= (x.trySetMax (Dom.dmax vals) ·)
       else some c)
